@@ -537,11 +537,13 @@ fn file_key_behind_prefix(check: &Check) {
     for version in [wow_mpq::FormatVersion::V1, wow_mpq::FormatVersion::V2, wow_mpq::FormatVersion::V4] {
         let dir = vcheck::engine::scratch("c04k");
         let p = dir.path().join("k.mpq");
-        let files: Vec<(String, Vec<u8>, bool, u8)> = (0..12usize)
+        // full cross product length × position-adjusted key × method: every storage layout of the builder
+        // (empty, single unit, exactly one sector, several sectors; compressed or not) with either key kind
+        let files: Vec<(String, Vec<u8>, bool, u8)> = (0..32usize)
             .map(|i| {
                 let len = [0usize, 3, 17, 4095, 4096, 4097, 9000, 20000][i % 8];
                 let body: Vec<u8> = (0..len).map(|k| ((k * 31 + i * 7) % 251) as u8 ^ if i % 3 == 0 { (k / 9) as u8 } else { 0 }).collect();
-                (format!("Keys\\Dir{}\\file_{i}.bin", i % 3), body, i % 2 == 0, if i % 4 < 2 { wow_mpq::compression::flags::ZLIB } else { 0 })
+                (format!("Keys\\Dir{}\\file_{i}.bin", i % 3), body, (i / 8) % 2 == 0, if i / 16 == 0 { wow_mpq::compression::flags::ZLIB } else { 0 })
             })
             .collect();
       for crcs in [false, true] {
